@@ -8,6 +8,7 @@ import (
 	"go/ast"
 	"go/constant"
 	"go/token"
+	"go/types"
 	"strings"
 
 	"golang.org/x/tools/go/ssa"
@@ -448,4 +449,501 @@ func sentinelRule(p *core.Program, r *core.Report, rule string, rels []string, f
 			r.Check(bad == "", rule, key, p.Pos(c.Pos()), true, fmt.Sprintf("%d arithmetic/index uses, all behind the sentinel test", nuse), bad)
 		}
 	}
+}
+
+// distinctStorageRule (C08): the arrays stored into Bounds.min and Bounds.max of a new box come from different
+// allocations (an append into min's spare capacity must never land in max).
+func distinctStorageRule(p *core.Program, r *core.Report, rule string) {
+	r.Rule(rule, "wherever a function stores arrays into both Bounds.min and Bounds.max (NewBounds, SetCoords, the clone helper), the two values come from different allocation sites and are not slices of one array: min and max grow by append, and an append into min's spare capacity must not overwrite max", 2)
+	base := func(v ssa.Value) ssa.Value {
+		for {
+			switch x := v.(type) {
+			case *ssa.Slice:
+				v = x.X
+			case *ssa.ChangeType:
+				v = x.X
+			case *ssa.Convert:
+				v = x.X
+			default:
+				return v
+			}
+		}
+	}
+	for _, fn := range pkgFuncs(p, "") {
+		var minV, maxV ssa.Value
+		var pos token.Pos
+		for _, b := range fn.Blocks {
+			for _, in := range b.Instrs {
+				st, ok := in.(*ssa.Store)
+				if !ok {
+					continue
+				}
+				root, path := fieldRoot(st.Addr)
+				if root == st.Addr || namedTypeName(root.Type()) != "Bounds" {
+					continue
+				}
+				switch path {
+				case ".min":
+					minV, pos = st.Val, st.Pos()
+				case ".max":
+					maxV = st.Val
+				}
+			}
+		}
+		if minV == nil || maxV == nil {
+			continue
+		}
+		bm, bx := base(minV), base(maxV)
+		_, mk1 := bm.(*ssa.MakeSlice)
+		_, mk2 := bx.(*ssa.MakeSlice)
+		_, ap1 := bm.(*ssa.Call)
+		_, ap2 := bx.(*ssa.Call)
+		fresh := (mk1 || ap1) && (mk2 || ap2)
+		if !fresh {
+			continue // not a constructor of both arrays (e.g. copies existing fields)
+		}
+		r.Check(bm != bx, rule, short(fn), p.Pos(pos), true, "min and max are backed by different allocations", "min and max are slices of one allocation: appending to min (layout widening) overwrites max[0]")
+	}
+}
+
+// zeroAreaFallbackRule (C14): the area centroid falls back to the linear centroid exactly when the accumulated area is zero.
+func zeroAreaFallbackRule(p *core.Program, r *core.Report, rule string) {
+	r.Rule(rule, "AreaCentroidCalculator.GetCentroid chooses the area-weighted branch iff math.Abs(calc.areasum2) > 0 (comparison with the constant 0, no tolerance): the property asks for the length-weighted fallback only when the polygons have zero area, and thin valid polygons must keep their area centroid", 1)
+	fn := mustFn(p, r, rule, "xy", "(*AreaCentroidCalculator).GetCentroid")
+	if fn == nil {
+		return
+	}
+	ok, why := false, "no test of calc.areasum2 against 0"
+	for _, b := range fn.Blocks {
+		c, okc := eng.EdgeCmp(b, 0)
+		if !okc {
+			continue
+		}
+		call, isCall := c.X.(*ssa.Call)
+		if !isCall || !eng.IsCallTo(call, "math", "Abs") {
+			continue
+		}
+		_, path, isF := fieldLoad(call.Call.Args[0])
+		if !isF || path != ".areasum2" {
+			continue
+		}
+		k, isC := c.Y.(*ssa.Const)
+		if c.Op == token.GTR && isC && k.Value != nil && k.Float64() == 0 {
+			ok = true
+		} else {
+			why = "the fallback test compares |areasum2| with " + c.Y.String() + " (" + c.Op.String() + "): a tolerance sends thin but valid polygons to the linear centroid"
+		}
+	}
+	r.Check(ok, rule, short(fn), p.Pos(fn.Pos()), true, "|areasum2| > 0 decides the branch", why)
+}
+
+// crossingConventionRule (C11): every site that counts a ray crossing uses one half-open endpoint convention.
+// The CFG of countSegment is evaluated under each of the 9 sign combinations of (p1.y - p.y, p2.y - p.y);
+// comparisons of those ordinates fold, every other condition may go either way.
+func crossingConventionRule(p *core.Program, r *core.Report, rule string) {
+	r.Rule(rule, "predicate abstraction over sign(p1.y - p.y) x sign(p2.y - p.y): the sign combinations under which a crossingCount increment is reachable, united over all increment sites of countSegment, form exactly one half-open convention - {(+,0),(+,-),(0,+),(-,+)} (an endpoint on the ray counts as below) or its mirror {(0,-),(+,-),(-,0),(-,+)}; two sites with different conventions count a vertex on the ray twice or not at all, swapping interior and exterior", 1)
+	fn := mustFn(p, r, rule, "xy/internal/raycrossing", "(*rayCrossingCounter).countSegment")
+	if fn == nil || len(fn.Params) < 3 {
+		return
+	}
+	kind := func(v ssa.Value) string {
+		ld, ok := v.(*ssa.UnOp)
+		if !ok || ld.Op != token.MUL {
+			return ""
+		}
+		ia, ok := ld.X.(*ssa.IndexAddr)
+		if !ok {
+			return ""
+		}
+		if k, isC := eng.ConstInt(ia.Index); !isC || k != 1 {
+			return ""
+		}
+		switch ia.X {
+		case ssa.Value(fn.Params[1]):
+			return "y1"
+		case ssa.Value(fn.Params[2]):
+			return "y2"
+		}
+		if _, path, ok := fieldLoad(ia.X); ok && path == ".p" {
+			return "py"
+		}
+		return ""
+	}
+	cmpSign := func(op token.Token, s int) bool { // is (y op py) true when sign(y-py) = s
+		switch op {
+		case token.LSS:
+			return s < 0
+		case token.LEQ:
+			return s <= 0
+		case token.GTR:
+			return s > 0
+		case token.GEQ:
+			return s >= 0
+		case token.EQL:
+			return s == 0
+		case token.NEQ:
+			return s != 0
+		}
+		return false
+	}
+	// eval returns (value, known)
+	var eval func(v ssa.Value, s1, s2 int) (bool, bool)
+	eval = func(v ssa.Value, s1, s2 int) (bool, bool) {
+		switch x := v.(type) {
+		case *ssa.UnOp:
+			if x.Op == token.NOT {
+				b, ok := eval(x.X, s1, s2)
+				return !b, ok
+			}
+		case *ssa.BinOp:
+			kx, ky := kind(x.X), kind(x.Y)
+			sign := func(k string) (int, bool) {
+				switch k {
+				case "y1":
+					return s1, true
+				case "y2":
+					return s2, true
+				}
+				return 0, false
+			}
+			if ky == "py" {
+				if s, ok := sign(kx); ok {
+					return cmpSign(x.Op, s), true
+				}
+			}
+			if kx == "py" {
+				if s, ok := sign(ky); ok {
+					return cmpSign(eng.SwapOp(x.Op), s), true
+				}
+			}
+			if x.Op == token.EQL || x.Op == token.NEQ {
+				if _, isBool := x.X.Type().Underlying().(*types.Basic); isBool && x.X.Type().Underlying().(*types.Basic).Kind() == types.Bool {
+					a, oka := eval(x.X, s1, s2)
+					b, okb := eval(x.Y, s1, s2)
+					if oka && okb {
+						return (a == b) == (x.Op == token.EQL), true
+					}
+				}
+			}
+		case *ssa.Phi:
+			// short-circuit && / || lowered to phis of constants and conditions
+			res, known, first := false, true, true
+			for _, e := range x.Edges {
+				var b, ok bool
+				if c, isC := e.(*ssa.Const); isC && c.Value != nil {
+					b, ok = c.Value.String() == "true", true
+				} else {
+					b, ok = eval(e, s1, s2)
+				}
+				if !ok {
+					known = false
+				}
+				if first {
+					res, first = b, false
+				} else if b != res {
+					known = false
+				}
+			}
+			return res, known && !first
+		}
+		return false, false
+	}
+	var incs []ssa.Instruction
+	for _, b := range fn.Blocks {
+		for _, in := range b.Instrs {
+			if st, ok := in.(*ssa.Store); ok {
+				if _, path := fieldRoot(st.Addr); path == ".crossingCount" {
+					incs = append(incs, in)
+				}
+			}
+		}
+	}
+	if len(incs) == 0 {
+		r.Bad(rule, short(fn), p.Pos(fn.Pos()), "countSegment never counts a crossing")
+		return
+	}
+	union := map[[2]int]bool{}
+	for s1 := -1; s1 <= 1; s1++ {
+		for s2 := -1; s2 <= 1; s2++ {
+			blocked := eng.EdgeSet{}
+			for _, b := range fn.Blocks {
+				ifi := eng.BlockIf(b)
+				if ifi == nil {
+					continue
+				}
+				if val, known := eval(ifi.Cond, s1, s2); known {
+					if val {
+						blocked[[2]int{b.Index, 1}] = true
+					} else {
+						blocked[[2]int{b.Index, 0}] = true
+					}
+				}
+			}
+			reach := eng.Reachable(fn.Blocks[0], blocked)
+			for _, in := range incs {
+				if reach[in.Block()] {
+					union[[2]int{s1, s2}] = true
+				}
+			}
+		}
+	}
+	convA := map[[2]int]bool{{1, 0}: true, {1, -1}: true, {0, 1}: true, {-1, 1}: true}
+	convB := map[[2]int]bool{{0, -1}: true, {1, -1}: true, {-1, 0}: true, {-1, 1}: true}
+	same := func(a, b map[[2]int]bool) bool {
+		if len(a) != len(b) {
+			return false
+		}
+		for k := range a {
+			if !b[k] {
+				return false
+			}
+		}
+		return true
+	}
+	var got []string
+	for s1 := -1; s1 <= 1; s1++ {
+		for s2 := -1; s2 <= 1; s2++ {
+			if union[[2]int{s1, s2}] {
+				got = append(got, fmt.Sprintf("(%+d,%+d)", s1, s2))
+			}
+		}
+	}
+	r.Check(same(union, convA) || same(union, convB), rule, short(fn), p.Pos(fn.Pos()), true, fmt.Sprintf("%d increment site(s); crossings are counted exactly for %v", len(incs), got),
+		fmt.Sprintf("crossings can be counted for the sign cases %v of (p1.y-p.y, p2.y-p.y) across %d increment sites: this is not one half-open convention, a vertex lying on the ray is counted twice or not at all", got, len(incs)))
+}
+
+// grahamPreconditionRule (C13): the array handed to grahamScan (which unconditionally pushes coordinates 0, 1, 2)
+// holds at least three coordinates: it is the de-duplicated array behind the early returns for one and two
+// distinct points, or the result of reduce (which pads to three).
+func grahamPreconditionRule(p *core.Program, r *core.Report, rule string) {
+	r.Rule(rule, "grahamScan pushes coordinates 0, stride and 2*stride of its argument unconditionally; at its call site the argument is, on every incoming edge, either the result of reduce (all of whose returns are padded or tested to hold three coordinates) or the very array whose length/stride was tested == 1 and == 2 with early returns (the tests must be on the de-duplicated array, not on the raw input)", 1)
+	fn := mustFn(p, r, rule, "xy", "(*convexHullCalculator).getConvexHull")
+	if fn == nil {
+		return
+	}
+	var call *ssa.Call
+	for _, c := range eng.Calls(fn) {
+		if f := c.Common().StaticCallee(); f != nil && f.Name() == "grahamScan" {
+			call, _ = c.(*ssa.Call)
+		}
+	}
+	if call == nil {
+		r.Lost(rule, short(fn)+"/grahamScan", "getConvexHull no longer calls grahamScan")
+		return
+	}
+	arg := call.Call.Args[1]
+	var cands []ssa.Value
+	if phi, ok := arg.(*ssa.Phi); ok {
+		cands = append(cands, phi.Edges...)
+	} else {
+		cands = []ssa.Value{arg}
+	}
+	bad := ""
+	for _, v := range cands {
+		if c, ok := v.(*ssa.Call); ok {
+			if f := c.Call.StaticCallee(); f != nil && f.Name() == "reduce" {
+				// reduce(x): x must itself be count-tested (reduce returns x unchanged when the octagon degenerates)
+				v = c.Call.Args[1]
+			}
+		}
+		// v must be the operand of len(v)/stride == 1 and == 2 tests whose true edges return
+		tested := map[int64]bool{}
+		blocked := eng.EdgeSet{}
+		for _, b := range fn.Blocks {
+			c, ok := eng.EdgeCmp(b, 0)
+			if !ok || c.Op != token.EQL {
+				continue
+			}
+			k, isK := eng.ConstInt(c.Y)
+			q, isQ := c.X.(*ssa.BinOp)
+			if !isK || !isQ || q.Op != token.QUO {
+				continue
+			}
+			lc, isL := q.X.(*ssa.Call)
+			if !isL || eng.BuiltinName(lc) != "len" || lc.Call.Args[0] != v {
+				continue
+			}
+			tested[k] = true
+			blocked[[2]int{b.Index, 1}] = true
+		}
+		if !(tested[1] && tested[2]) {
+			bad = fmt.Sprintf("the array %s reaching grahamScan is not the one whose coordinate count was tested against 1 and 2 (tests found on it: %v): duplicates can leave fewer than three distinct points, the scan then reads zero-filled capacity and (0,0) becomes a hull vertex", v.Name(), keys(tested))
+		} else if eng.Reachable(fn.Blocks[0], blocked)[call.Block()] {
+			bad = "grahamScan is reachable without passing the count tests"
+		}
+	}
+	r.Check(bad == "", rule, short(fn)+"/grahamScan", p.Pos(call.Pos()), true, "every array reaching the scan passed the one-point and two-point early returns", bad)
+}
+
+// denominatorSignRule (C15): a value that is tested for zero as a denominator may be compared with other
+// quantities (cross-multiplied range tests) only where its sign is known.
+func denominatorSignRule(p *core.Program, r *core.Report, rule string, targets [][2]string) {
+	r.Rule(rule, "in the segment-segment kernels the denominator (the value tested == 0 / <= 0 for parallelism) either divides the numerators before they are range-tested, or every ordered comparison in which it is an operand (a cross-multiplied form of 0 <= num/denom <= 1) lies behind a test of its sign: multiplying an inequality by a denominator of unknown sign reverses it for half of all crossings", len(targets))
+	isFloat := func(t types.Type) bool {
+		b, ok := t.Underlying().(*types.Basic)
+		return ok && b.Info()&types.IsFloat != 0
+	}
+	for _, t := range targets {
+		fn := mustFn(p, r, rule, t[0], t[1])
+		if fn == nil {
+			continue
+		}
+		// denominators: float values compared with the constant 0 by ==, !=, <= or >=  and used as a divisor or compared further
+		var denoms []ssa.Value
+		for _, b := range fn.Blocks {
+			for _, in := range b.Instrs {
+				bo, ok := in.(*ssa.BinOp)
+				if !ok || !isFloat(bo.X.Type()) {
+					continue
+				}
+				k, isC := bo.Y.(*ssa.Const)
+				if !isC || k.Value == nil || k.Float64() != 0 {
+					continue
+				}
+				if bo.Op == token.EQL || bo.Op == token.NEQ || bo.Op == token.LEQ {
+					// must be a computed difference of products (a cross product / determinant), not an input ordinate
+					if _, isSub := bo.X.(*ssa.BinOp); isSub {
+						denoms = append(denoms, bo.X)
+					}
+				}
+			}
+		}
+		key := short(fn)
+		if len(denoms) == 0 {
+			r.Bad(rule, key, p.Pos(fn.Pos()), "no denominator (a computed value tested against 0) found: the parallel case is not separated")
+			continue
+		}
+		bad := ""
+		ncmp, ndiv := 0, 0
+		for _, d := range denoms {
+			// sign pass edges
+			signKnown := eng.EdgeSet{}
+			for _, b := range fn.Blocks {
+				for e := 0; e < 2; e++ {
+					c, ok := eng.EdgeCmp(b, e)
+					if !ok || c.X != d {
+						continue
+					}
+					if k, isC := c.Y.(*ssa.Const); isC && k.Value != nil && k.Float64() == 0 && (c.Op == token.GTR || c.Op == token.LSS) {
+						signKnown[[2]int{b.Index, e}] = true
+					}
+				}
+			}
+			for _, rf := range eng.Referrers(d) {
+				bo, ok := rf.(*ssa.BinOp)
+				if !ok {
+					continue
+				}
+				if bo.Op == token.QUO && bo.Y == d {
+					ndiv++
+					continue
+				}
+				if !eng.IsOrderedCmp(bo.Op) {
+					continue
+				}
+				other := bo.Y
+				if other == d {
+					other = bo.X
+				}
+				if k, isC := other.(*ssa.Const); isC && k.Value != nil && k.Float64() == 0 {
+					continue
+				}
+				ncmp++
+				if len(signKnown) == 0 || eng.Reachable(fn.Blocks[0], signKnown)[bo.Block()] {
+					bad = fmt.Sprintf("the denominator is compared with %s at %s where its sign is not known: the cross-multiplied range test is reversed when the denominator is negative, so crossing segments are reported apart", other.Name(), p.Pos(bo.Pos()))
+				}
+			}
+		}
+		if bad == "" && ndiv == 0 && ncmp == 0 {
+			bad = "the denominator neither divides the numerators nor is compared with them: the intersection parameters are not range-tested"
+		}
+		r.Check(bad == "", rule, key, p.Pos(fn.Pos()), true, fmt.Sprintf("%d divisions by the denominator, %d sign-guarded comparisons with it", ndiv, ncmp), bad)
+	}
+}
+
+// rdpScanRule (C20): dpWorker measures every interior point of the interval and splits iff the largest
+// squared distance exceeds threshold squared.
+func rdpScanRule(p *core.Program, r *core.Report, rule string) {
+	r.Rule(rule, "in dpWorker every candidate i in (start, end) reaches the call of distanceFromSegmentSquared(a, b, p_i): no path through the scan loop's body returns to the loop head without that call (no cheap reject); the split test compares the maximum of those squared distances with threshold*threshold", 2)
+	fn := mustFn(p, r, rule, "xy", "dpWorker")
+	if fn == nil {
+		return
+	}
+	var call *ssa.Call
+	for _, c := range eng.Calls(fn) {
+		if f := c.Common().StaticCallee(); f != nil && f.Name() == "distanceFromSegmentSquared" {
+			call, _ = c.(*ssa.Call)
+		}
+	}
+	if call == nil {
+		r.Lost(rule, short(fn)+"/distance-call", "dpWorker no longer calls distanceFromSegmentSquared")
+		return
+	}
+	// the scan loop: a phi i with step +1 whose bound test is `i < end`; body entry = true successor
+	bad := "no candidate scan loop (i := start+1; i < end; i++) found around the distance call"
+	for _, b := range fn.Blocks {
+		for _, in := range b.Instrs {
+			phi, ok := in.(*ssa.Phi)
+			if !ok || len(phi.Edges) != 2 {
+				continue
+			}
+			step := false
+			for _, e := range phi.Edges {
+				if bo, ok := e.(*ssa.BinOp); ok && bo.Op == token.ADD && bo.X == phi {
+					if k, isC := eng.ConstInt(bo.Y); isC && k == 1 {
+						step = true
+					}
+				}
+			}
+			if !step {
+				continue
+			}
+			head := phi.Block()
+			c, okc := eng.EdgeCmp(head, 0)
+			if !okc || c.Op != token.LSS || c.X != ssa.Value(phi) {
+				continue
+			}
+			body := head.Succs[0]
+			if !(body == call.Block() || eng.Reachable(body, nil)[call.Block()]) {
+				continue
+			}
+			// remove the call's block: can the body still get back to the head?
+			blocked := eng.EdgeSet{}
+			for i := range call.Block().Succs {
+				blocked[[2]int{call.Block().Index, i}] = true
+			}
+			if body != call.Block() && eng.Reachable(body, blocked)[head] {
+				bad = "a path through the scan loop skips distanceFromSegmentSquared for some candidate (a cheap reject): a point farther than the threshold can be dropped without ever being measured"
+			} else {
+				bad = ""
+			}
+		}
+	}
+	r.Check(bad == "", rule, short(fn)+"/every-candidate-measured", p.Pos(call.Pos()), true, "the distance call is on every path through the scan loop's body", bad)
+	// split test
+	okSplit := false
+	thr := fn.Params[1]
+	for _, b := range fn.Blocks {
+		c, okc := eng.EdgeCmp(b, 0)
+		if !okc || c.Op != token.GTR {
+			continue
+		}
+		if mul, ok := c.Y.(*ssa.BinOp); ok && mul.Op == token.MUL && mul.X == ssa.Value(thr) && mul.Y == ssa.Value(thr) {
+			if phi, ok := c.X.(*ssa.Phi); ok {
+				for _, e := range phi.Edges {
+					if e == ssa.Value(call) {
+						okSplit = true
+					}
+					if ph2, ok := e.(*ssa.Phi); ok {
+						for _, e2 := range ph2.Edges {
+							if e2 == ssa.Value(call) {
+								okSplit = true
+							}
+						}
+					}
+				}
+			}
+		}
+	}
+	r.Check(okSplit, rule, short(fn)+"/split-test", p.Pos(fn.Pos()), true, "split iff max squared distance > threshold*threshold", "the split decision is not `maxDist > threshold*threshold` on the maximum of the measured squared distances")
 }
